@@ -1,4 +1,5 @@
 //! mc <Cxx> [--tier quick|thorough] [--replay <file>]
+mod alloc;
 mod gen;
 mod props;
 mod reftext;
@@ -8,6 +9,9 @@ mod textgen;
 mod typed;
 
 use report::Tier;
+
+#[global_allocator]
+static GLOBAL: alloc::Counting = alloc::Counting;
 
 fn main() {
     let args: Vec<String> = std::env::args().collect();
@@ -34,6 +38,10 @@ fn main() {
                     },
                 };
                 i += 2;
+            },
+            "--child" => {
+                let which = args.get(i + 1).cloned().unwrap_or_default();
+                std::process::exit(props::child(&prop, tier, &which));
             },
             "--replay" => {
                 replay = args.get(i + 1).cloned();
